@@ -305,7 +305,7 @@ def main(prop):
     tmp = tempfile.mkdtemp(prefix="gtv-order-")
     k2_seen = 0
     try:
-        for it in range(60 if quick else 2500):
+        for it in range(60 if quick else 800):
             default_order = prop == "C06" and it % 15 == 7
             segs, links, order, broken = make_default_case(rng) if default_order else make_case(rng)
             with_seq = rng.random() < 0.5
@@ -440,7 +440,7 @@ def main(prop):
                     if res3["outcome"] != "ok" or res3["files"] != res["files"] or res3["csv"] != res["csv"]:
                         ck.violation("the written chromosomes differ from a run in which the skipped ones are absent from the request", dict(replay, good=good))
         if prop == "C07":
-            roundtrip_io(ck, tmp, 150 if quick else 4000)
+            roundtrip_io(ck, tmp, 150 if quick else 2000)
         if prop in ("C06", "C07"):
             for _ in range(1 if quick else 4):
                 big_case(ck, prop, tmp)
